@@ -6,6 +6,8 @@ build the line is meant for) as its first argument; octet strings are little-end
   genm0 W len tape                     -> code m0
   genmi W len m0 tape                  -> code mi
   genmid W len m0 id                   -> code mid
+  genmidu W len m0 u                   -> code mid      (belsGenMid with belt-hash(id) replaced by the 32 octets u:
+                                                          harness/c13_hook.c, reaches the retry loop)
   share W count thr len s m0 mi tape   -> code si
   share2 W count thr len s tape        -> code si       (blocks of 1 + len octets)
   share3 W count thr len s             -> code si
@@ -92,6 +94,11 @@ def handle (args : List String) : String :=
   | ["genmid", w, len, m0, id] =>
     match parseNat w, parseNat len, parseHex m0, parseHex id with
     | some _, some len, some m0, some id => outO len (belsGenMid len (C13.leNat m0) id)
+    | _, _, _, _ => "bad-op"
+  | ["genmidu", w, len, m0, u] =>
+    match parseNat w, parseNat len, parseHex m0, parseHex u with
+    | some _, some len, some m0, some u =>
+      if u.length ≠ 32 then "bad-op" else outO len (belsGenMidH len (C13.leNat m0) (C13.leNat u))
     | _, _, _, _ => "bad-op"
   | ["share", w, count, thr, len, s, m0, mi, tape] =>
     match parseNat w, parseNat count, parseNat thr, parseNat len, parseHex s, parseHex m0, parseHex mi, parseHex tape with
